@@ -36,16 +36,16 @@ def fix_nfn(evs):
 TIERS = {
     # mc: exhaustive TLC (scenario, workers); run: recorded executions of the real code validated against the model
     "quick": {
-        "mc": ["io_rw1", "io_2rd1", "io_rdwr1", "io_close1", "io_pipe1", "io_accept1", "io_rw2tns", "io_close2tns"],
-        "run": ["io_rw2t", "io_2rd2t", "io_rdwr2t", "io_close2t", "io_closerace2t", "io_pipe2t", "io_accept1", "io_accept2t"],
+        "mc": ["io_rw1", "io_2rd1", "io_rdwr1", "io_dirrd1", "io_dirwr1", "io_close1", "io_pipe1", "io_accept1", "io_rw2tns", "io_close2tns"],
+        "run": ["io_rw2t", "io_2rd2t", "io_rdwr2t", "io_dirrd1", "io_dirwr1", "io_close2t", "io_closerace2t", "io_pipe2t", "io_accept1", "io_accept2t"],
         "seeds": 6, "mc_timeout": 300, "mc_par": 6, "mc_workers": 1,
         # searched for a bounded time only (complete in the thorough tier)
         "mc_bounded": {"io_closerace2t": 60},
     },
     "thorough": {
-        "mc": ["io_rw1", "io_2rd1", "io_rdwr1", "io_close1", "io_pipe1", "io_accept1", "io_rw2t", "io_close2t", "io_closerace2t",
+        "mc": ["io_rw1", "io_2rd1", "io_rdwr1", "io_dirrd1", "io_dirwr1", "io_close1", "io_pipe1", "io_accept1", "io_rw2t", "io_close2t", "io_closerace2t",
                "io_2rd2tns", "io_pipe2tns", "io_rdwr2tns", "io_accept2tns", "io_2rd2t"],
-        "run": ["io_rw1", "io_rw2t", "io_2rd1", "io_2rd2t", "io_rdwr1", "io_rdwr2t", "io_close1", "io_close2t", "io_closerace2t",
+        "run": ["io_rw1", "io_rw2t", "io_2rd1", "io_2rd2t", "io_rdwr1", "io_rdwr2t", "io_dirrd1", "io_dirwr1", "io_dirrd2t", "io_dirwr2t", "io_close1", "io_close2t", "io_closerace2t",
                 "io_closewr1", "io_closewr2t", "io_pipe1", "io_pipe2t", "io_accept1", "io_accept2t"],
         "seeds": 120, "mc_timeout": 1200, "mc_par": 3, "mc_workers": 2, "mc_bounded": {},
     },
